@@ -133,11 +133,45 @@ func (q Quantity) Negate() Quantity {
 	return Quantity{q.value.Mul(negative), q.unit}
 }
 
+// maxTemporalAmount is, per unit, the largest amount the conversions below can
+// hold: ten thousand years for the calendar units (no date moves further), and
+// what fits a time.Duration (292 years) for the clock units. Beyond it the
+// conversions to int and time.Duration would wrap around silently.
+var maxTemporalAmount = map[string]int64{
+	"year": 10000, "years": 10000,
+	"month": 120000, "months": 120000,
+	"week": 530000, "weeks": 530000,
+	"day": 3660000, "days": 3660000,
+	"hour": 2562047, "hours": 2562047,
+	"minute": 153722867, "minutes": 153722867,
+	"second": 9223372035, "seconds": 9223372035,
+	"millisecond": 9223372036854, "milliseconds": 9223372036854,
+}
+
+// wholeAmount returns the amount of a time-valued quantity without its
+// fraction. An amount that the unit's conversions cannot hold is an
+// ErrIntOverflow (arithmetic on it yields empty), an unknown unit an
+// ErrMismatchedUnit.
+func (q Quantity) wholeAmount() (int64, error) {
+	limit, ok := maxTemporalAmount[q.unit]
+	if !ok {
+		return 0, fmt.Errorf("%w: not a time-valued unit", ErrMismatchedUnit)
+	}
+	whole := decimal.Decimal(q.value).Truncate(0)
+	if whole.Abs().GreaterThan(decimal.NewFromInt(limit)) {
+		return 0, fmt.Errorf("%w: %v %v", ErrIntOverflow, whole, q.unit)
+	}
+	return whole.IntPart(), nil
+}
+
 // timeDuration returns the time.Duration represented by
 // a time-valued Quantity. Returns an error if the Quantity
 // doesn't represent a valid time duration.
 func (q Quantity) timeDuration() (time.Duration, error) {
-	value := decimal.Decimal(q.value).IntPart()
+	value, err := q.wholeAmount()
+	if err != nil {
+		return time.Duration(0), err
+	}
 
 	var duration time.Duration
 	switch q.unit {
@@ -159,7 +193,11 @@ func (q Quantity) timeDuration() (time.Duration, error) {
 // Converts valid time based quantities to a number of years,
 // by rounding down.
 func (q Quantity) toYears() (int, error) {
-	value := int(decimal.Decimal(q.value).IntPart())
+	amount, err := q.wholeAmount()
+	if err != nil {
+		return 0, err
+	}
+	value := int(amount)
 
 	switch q.unit {
 	case "year", "years":
@@ -187,7 +225,11 @@ func (q Quantity) toYears() (int, error) {
 // Converts a valid time based quantity to a number of months,
 // by rounding down.
 func (q Quantity) toMonths() (int, error) {
-	value := int(decimal.Decimal(q.value).IntPart())
+	amount, err := q.wholeAmount()
+	if err != nil {
+		return 0, err
+	}
+	value := int(amount)
 
 	switch q.unit {
 	case "year", "years":
